@@ -230,7 +230,11 @@ func run(c *hc.Ctx) {
 				if msg := hc.Try(func() { R2 = apply(op, Q.Copy(), P.Copy()) }); msg == "" {
 					if cr2, ok := hc.Contours(R2); ok {
 						line := fmt.Sprintf("REGION bool %s %s P %s Q %s R %s PTS %s", op, hc.H(delta), hc.PolyTokens(cq), hc.PolyTokens(cp), hc.PolyTokens(cr2), hc.PtsTokens(pts))
-						c.Case(line, "!", "region-swapped:"+op)
+						sk := "region-swapped:" + op
+						if prefilterApplies(cq, cp) {
+							sk += " +prefilter"
+						}
+						c.Case(line, "!", sk)
 						c.Count("swapped:" + op)
 					}
 				}
